@@ -89,6 +89,10 @@ def instances(tier, seed):
         for args, ress in ((['zstr'], ['x', 'u']), (['x', 'zstr'], ['x']), (['p:a', 'zstr'], ['u'])):
             add(spec=model(dae=True), cfg=Cfg('DC', N=[2, 3][n % 2], M=[1, 2][(n // 2 + 1) % 2], grid=fam.G_UNI, degree=[2, 3][n % 2], scheme='radau'), args=args, results=ress)
             n += 1
+        # a guess for the free end time as argument, on plain and on localized time grids
+        for g in (fam.G_UNI, fam.G_GEO_LOC, fam.G_UNI_LT, fam.G_FREE):
+            for method, intg in (('MS', 'rk'), ('DC', None)):
+                add(spec=fam.with_horizon(model(), fam.HORIZONS[2]), cfg=Cfg(method, N=2, M=1, intg=intg or 'rk', grid=g, degree=2, scheme='radau'), args=['T', 'p:a'], results=['x', 'T'])
         for args, ress in ((['zstr'], ['x']), (['x', 'zstr'], ['x', 'u'])):
             add(spec=model(dae='vec'), cfg=Cfg('DC', N=[2, 3][n % 2], M=[1, 2][n % 2], grid=fam.G_UNI, degree=[3, 2][n % 2], scheme='radau'), args=args, results=ress)
             n += 1
@@ -259,6 +263,9 @@ def run(item):
         elif a == 'w':
             listed_x.add('w')
             P('guess-arg', 'w0 == arg', {d: trs[d].V['w'][0] for d in doms}, {d: argval(i, 0, d) for d in doms})
+        elif a == 'T':
+            listed_x.add('T')
+            P('guess-arg', 'T0 == arg', {d: trs[d].T for d in doms}, {d: argval(i, 0, d) for d in doms})
     # twin (vacuity): a listed parameter argument is not what a different parameter reads
     twins_ok = twins_bad = 0
     for i, a in enumerate(item['args']):
@@ -350,6 +357,8 @@ def run(item):
                 ocp.set_initial(b.us[0], dm)
             elif a == 'w':
                 ocp.set_initial(b.vsym['w'], dm)
+            elif a == 'T':
+                ocp.set_initial(ocp.T, dm)
             elif a == 'zstr':
                 # imperative counterpart of the "z" argument: one n_i x N array guess per declared algebraic variable
                 off = 0
